@@ -260,6 +260,8 @@ class Layout:
                 a += ' length="%d"' % e["length"]
             if e["presence"] != "required":
                 a += ' presence="%s"' % e["presence"]
+            if e.get("max_value") is not None:
+                a += ' maxValue="%d"' % e["max_value"]
             a += self._off(e)
             if e["presence"] == "constant":
                 out.append("%s<type %s>%s</type>" % (p, a, e["const"]))
